@@ -78,6 +78,35 @@ theorem C13_return_keeps_metrics (s s' : State) (i : Nat) (o : Obj) (hl : s.lock
 example : ({ id := 0, created := 3, recycled := some 40, rc := 2, handouts := 3 } : Obj).used := by
   simp [Obj.used]
 
+/-- **C13 (the accessors tell the same story as the fields).** For every idle or handed-out
+object of every reachable state, read at the current instant: `age()` is exactly the time
+since `created` (no underflow: `created ≤ now`), `last_used()` is the time since `recycled`
+and never exceeds `age()`, and before the first reuse the two coincide. -/
+theorem C13_accessors (cfg : Cfg) (acts : List Action) :
+    ∀ o ∈ (run (init cfg) acts).idle ++ (run (init cfg) acts).out,
+      o.age (run (init cfg) acts).now + o.created = (run (init cfg) acts).now ∧
+      o.lastUsed (run (init cfg) acts).now ≤ o.age (run (init cfg) acts).now ∧
+      (o.recycled = none → o.lastUsed (run (init cfg) acts).now = o.age (run (init cfg) acts).now) ∧
+      (∀ r, o.recycled = some r →
+        o.lastUsed (run (init cfg) acts).now + r = (run (init cfg) acts).now) := by
+  intro o ho
+  obtain ⟨_, _, h3, h4⟩ := (C13_metrics_truthful cfg acts).1 o ho
+  refine ⟨?_, ?_, ?_, ?_⟩
+  · unfold Obj.age; omega
+  · unfold Obj.age Obj.lastUsed
+    cases hr : o.recycled with
+    | none => simp
+    | some r =>
+      have := (h4 r hr).1
+      simp only [Option.getD_some]
+      omega
+  · intro hn; unfold Obj.age Obj.lastUsed; simp [hn]
+  · intro r hr
+    have := (h4 r hr).2
+    unfold Obj.lastUsed
+    simp only [hr, Option.getD_some]
+    omega
+
 theorem mem_hoOf {x : Nat} {log : List Ev} {p : Obj} (h : p ∈ hoOf x log) :
     p.id = x ∧ ∃ i, Ev.handout i p ∈ log := by
   simp only [hoOf, List.mem_filterMap] at h
